@@ -446,10 +446,22 @@ fn c06_shard(ctx: &Ctx, out: &mut ShardOut) {
         cl.push(("removals_from_trees_of_16_or_more", s.tree_removals_big));
         Ok(CaseInfo { nontrivial: s.tree_removals_big > 0, classes: cl, evaluations: s.steps.max(1), sub_hashes: vec![] })
     });
+    // tree bins after concurrent histories (contended tree locks, migrations, conversions)
+    let pool = crate::sched::Pool::new();
+    let b = super::concchecks::budget_for(ctx.tier, ctx.shard_seed(11));
+    super::concchecks::C06T.run(ctx, &pool, 51, ctx.share(ctx.by_tier(200, 4_000)) as u32, &b, out);
+    super::concchecks::C06D.run(ctx, &pool, 52, ctx.share(ctx.by_tier(96, 2_000)) as u32, &b, out);
+    drop(pool);
+    super::concchecks::C06W.run(ctx, &crate::sched::Pool::with_workers(super::concchecks::CROWD_WORKERS), 53, ctx.share(ctx.by_tier(96, 1_500)) as u32, &super::concchecks::crowd_budget(ctx.tier, ctx.shard_seed(12)), out);
 }
 
 fn c06_replay(sub: &str, case: &Value) -> Result<(), CaseFail> {
-    replay_seq("C06", sub, case, C06_OR)
+    match sub {
+        "tree-conc" => super::concchecks::C06T.replay(&crate::sched::Pool::new(), case, &super::concchecks::budget_for(Tier::Thorough, 1)),
+        "tree-drain" => super::concchecks::C06D.replay(&crate::sched::Pool::new(), case, &super::concchecks::budget_for(Tier::Thorough, 1)),
+        "tree-crowd" => super::concchecks::C06W.replay(&crate::sched::Pool::with_workers(super::concchecks::CROWD_WORKERS), case, &super::concchecks::crowd_budget(Tier::Thorough, 1)),
+        _ => replay_seq("C06", sub, case, C06_OR),
+    }
 }
 
 /* ------------------------------------ C14 ------------------------------------ */
@@ -793,7 +805,7 @@ pub fn defs() -> Vec<PropDef> {
     PropDef {
         id: "C06",
         level: "exploration",
-        rule: "collision generators only (constant hashes; same bin with distinct hashes; 4 bins), tables >= 64 reached by capacity or growth, 8-200 colliding keys, insertion/removal orders from ascending/descending/zig-zag/stride patterns and random mixes, trees created by treeification and by resize splits; after every step the inspector checks each tree bin (BST order by (hash,key), root black, no red-red, equal black height, parent/child and prev/next consistency, list = tree) and get() of every universe key (present or absent) in a bin of n >= 8 entries of a table >= 64 must use <= ceil(4*log2(n+1))+2 key comparisons (counted by the key type); evaluations = steps checked; non-trivial = a removal from a tree of >= 16 nodes happened; distinct = hash of the case",
+        rule: "collision generators only (constant hashes; same bin with distinct hashes; 4 bins), tables >= 64 reached by capacity or growth, 8-200 colliding keys, insertion/removal orders from ascending/descending/zig-zag/stride patterns and random mixes, trees created by treeification and by resize splits; after every step the inspector checks each tree bin (BST order by (hash,key), root black, no red-red, equal black height, parent/child and prev/next consistency, list = tree) and get() of every universe key (present or absent) in a bin of n >= 8 entries of a table >= 64 must use <= ceil(4*log2(n+1))+2 key comparisons (counted by the key type); evaluations = steps checked; non-trivial = a removal from a tree of >= 16 nodes happened; distinct = hash of the case; plus scheduled sub-checks (tree-conc, tree-drain, tree-crowd): after every explored schedule of programs whose threads contend for, migrate or convert a tree bin, get() of every stored key and of the absent hot keys in every tree bin must meet the same comparison bound and the inspector's tree invariants must hold (non-trivial there = the schedule ended with a tree bin and a thread parked, blocked or a conversion happened)",
         assumptions: &["comparison counts are those of the instrumented key type's Eq/Ord"],
         run_shard: c06_shard,
         replay: c06_replay,
